@@ -23,6 +23,7 @@ import (
 	"github.com/multiformats/go-multihash"
 
 	"verifharness/internal/chain"
+	"verifharness/internal/gate"
 	"verifharness/internal/lsys"
 	"verifharness/internal/rep"
 )
@@ -351,6 +352,84 @@ func eqEvents(a, b []mevent) bool {
 }
 
 // Run is "harness c04" (also used for C02 with -only-body).
+// overlapRound: two publishers are synced through one Subscriber at the same time, and the sync of the first is held each time
+// it is about to store a block until a fetch of the other has gone through -- whatever one fetch holds between receiving a body and
+// storing it must be its own (C02: every block in the store hashes to the CID it is stored under, after any sequence of syncs).
+// One processor for the round, so that the two goroutines share whatever per-processor caches the library keeps.
+func overlapRound(r *rep.Report, rounds int) int {
+	prev := runtime.GOMAXPROCS(1)
+	defer runtime.GOMAXPROCS(prev)
+	var pubs []*chain.Pub
+	for i := 0; i < 2; i++ {
+		ch, err := chain.Build("ads", 4, fmt.Sprintf("c02-overlap-%d", i))
+		if err != nil {
+			return 0
+		}
+		p, err := chain.NewPub(ch, fmt.Sprintf("c02-overlap-pub-%d", i), true)
+		if err != nil {
+			return 0
+		}
+		defer p.Close()
+		pubs = append(pubs, p)
+	}
+	done := 0
+	for n := 0; n < rounds; n++ {
+		dst := lsys.NewStore()
+		for _, p := range pubs {
+			p.Reset(4)
+		}
+		var mu sync.Mutex
+		other := make(chan struct{}, 64) // a token per block the second publisher has served
+		pubs[1].Intercept = func(w http.ResponseWriter, req *http.Request, seq int) bool {
+			select {
+			case other <- struct{}{}:
+			default:
+			}
+			return false
+		}
+		first := true
+		holder := int64(0)
+		dst.OnWriteOpen = func() {
+			mu.Lock()
+			if first {
+				first, holder = false, gate.Goid()
+			}
+			mine := holder == gate.Goid()
+			mu.Unlock()
+			if mine { // the first sync to store something: let a fetch of the other publisher go through first
+				select {
+				case <-other:
+				case <-time.After(20 * time.Millisecond):
+				}
+				runtime.Gosched()
+			}
+		}
+		sub, err := dagsync.NewSubscriber(nil, dst.LinkSystem(), dagsync.HttpTimeout(2*time.Second))
+		if err != nil {
+			return done
+		}
+		var wg sync.WaitGroup
+		for _, p := range pubs {
+			wg.Add(1)
+			go func(p *chain.Pub) {
+				defer wg.Done()
+				ctx, cancel := context.WithTimeout(context.Background(), 5*time.Second)
+				defer cancel()
+				sub.SyncAdChain(ctx, p.AddrInfo())
+			}(p)
+		}
+		wg.Wait()
+		sub.Close()
+		pubs[1].Intercept = nil
+		done++
+		if bad := dst.Audit(); len(bad) != 0 {
+			r.Diverge(rep.Divergence{Key: "store-holds-unverified-block", Detail: fmt.Sprintf("two publishers synced at the same time through one subscriber (round %d): stored blocks that do not hash to their CID: %v", n, bad)})
+			break
+		}
+	}
+	return done
+}
+
 func Run(args []string) *rep.Report {
 	fs := flag.NewFlagSet("c04", flag.ExitOnError)
 	file := fs.String("behaviours", "", "ndjson behaviours exported by TLC")
@@ -465,5 +544,8 @@ func Run(args []string) *rep.Report {
 		r.SetExtra("read_error", err.Error())
 	}
 	r.SetExtra("behaviour_runs", runs)
+	if *allPrefixes && si < 4 { // C02: four shards each run overlapping syncs of two publishers
+		r.AddExtra("overlapping_sync_rounds", overlapRound(r, 40))
+	}
 	return r
 }
